@@ -19,7 +19,8 @@ var goGenerators = []string{"generator/go/gounions", "generator/go/randdata", "g
 
 func checkC01(w *World, r *Result) {
 	r.Explanation = "Decides, on the template language of the three Go generators (every Declaration content is abstractly evaluated from the generator source into a sketch: literal text, typed holes, repetitions, alternatives; 0 unclassified holes required): TPL-1 every instantiation (repetitions 0..2, thorough 0..3; every alternative chosen) parses as Go; TPL-3 no comma-separated list can contain an empty element; PRINTF every constant format has exactly the arguments it needs (no %!s(MISSING)/%!(EXTRA)); TPL-2 a stub type-check of the instantiations with holes declared as opaque types reports no literal selector on a user type and no literal identifier that neither the standard library nor a sibling template defines; AGR-C01a in randdata the declaration ID, the generated function name and the name used at call sites come from the same functionID, and the literal names of the basic generators equal go/types' names of their kinds; AGR-C01c every <T>ArrayToPQ / Scan<T>Array a template calls is declared by idArrayConverters(<T>) in the same function under no stronger condition (apart from the documented generateArrayConverter test); AGR-C01q type names are printed relative to the package the generated file belongs to; DECL-ID declaration IDs cover what their content reads (no two different declarations merged, none duplicated). Does not decide: well-formedness of hole fillers for every input (type strings of foreign generic types, identifier collisions between user types), import completeness after goimports. Known: NewDateFrom/.Time() convention required from the user package for local date types."
-	r.Rules = []string{"TPL-1", "TPL-3", "PRINTF", "TPL-2", "AGR-C01a", "AGR-C01c", "AGR-C01q", "AGR-C01u", "UTF8-SLICE", "DECL-ID", "GEN-ID", "PKG-ID"}
+	r.Rules = []string{"TPL-1", "TPL-3", "PRINTF", "TPL-2", "AGR-C01a", "AGR-C01c", "AGR-C01q", "AGR-C01u", "UTF8-SLICE", "DECL-ID", "GEN-ID", "PKG-ID", "ALIAS-APPEND"}
+	aliasAppendRule(w, r, func(rel string) bool { return rel == "generator" || rel == "generator/go/gounions" || rel == "generator/go/randdata" || rel == "generator/go/sqlcrud" || rel == "analysis/sql" })
 	r.Assumptions = []string{"holes of class IDENT/TYPE are filled with well-formed Go identifiers/type expressions (they come from go/types)", "goimports adds/removes imports of the standard library and of the packages listed in the header"}
 	maxRep := 2
 	if w.Tier == "thorough" {
@@ -72,6 +73,14 @@ func printfRule(w *World, r *Result, rel string) int {
 			}
 			tv := info.Types[call.Args[first]]
 			if tv.Value == nil || tv.Value.Kind() != constant.String {
+				n++
+				fname := "?"
+				for _, fi := range sortedFuncs(w) {
+					if fi.Pkg == p && fi.Decl.Pos() <= call.Pos() && call.End() <= fi.Decl.End() {
+						fname = fi.Name
+					}
+				}
+				r.bad("PRINTF", fname, "format "+es(call.Args[first]), w.Pos(call.Pos()), "the format of "+fullName(calleeOf(info, call))+" is not a constant: text computed from the analysed program is interpreted as a format, so a `%` in it (an enum value \"%\", a comment `100 %`) corrupts the output and consumes the arguments meant for the real verbs")
 				return true
 			}
 			n++
